@@ -43,9 +43,11 @@ func run(c *fw.Ctx) {
 	g.endless()
 	g.challenges()
 	g.entityHeaders()
-	g.errorBodies() // last: a panic on Create's upload goroutine kills the worker
+	g.errorPages(false)
+	g.errorBodies()    // Create last: a panic on its upload goroutine kills the worker
+	g.errorPages(true) // (the Create part)
 	c.Note("exhaustive_parts", "errbodies: full product of 21 error-body contents x 7 lengths (0,1,1023,1024,1025,4096,1 MiB) x 10 Content-Types x statuses x 23 methods; matrix: status 100..599 x 7 body kinds x 23 methods (+ Create early answer x 3 kinds); uploads: full product of answer time x size x writes x stop-on-error x statuses; "+
-		"placements: all assignments of {200,204,102,302,403,404,500,507}; truncation: every prefix of the chosen documents and objects")
+		"placements: all assignments of {200,204,102,302,403,404,500,507}, failing responses with condition / description in both orders, status-type responses with several hrefs; errpages: full product of template x text class x tag case, whole pages x method x Content-Type; truncation: every prefix of the chosen documents and objects")
 }
 
 func xmlType(i int) string {
@@ -505,6 +507,12 @@ func (g *gen) placementCase(m *minfo, rs []res, i int) {
 	ext := map[string]string{"file": ".txt", "dir": "/", "cal": "/", "book": "/", "calobj": ".ics", "cardobj": ".vcf"}
 	for ri, r := range rs {
 		r.Props = append([]pv(nil), r.Props...)
+		if r.MoreHrefs > 0 {
+			g.c.Observe("several_hrefs", fmt.Sprintf("%s status=%s", m.Name, codeClass(r.Status)), 1)
+		}
+		if r.Cond {
+			g.c.Observe("failing_response_conditions", fmt.Sprintf("%s status=%s description=%q", m.Name, codeClass(r.Status), r.CondDesc), 1)
+		}
 		if r.Own {
 			d.Res = append(d.Res, r)
 			continue
@@ -605,6 +613,79 @@ func (g *gen) placements() {
 		}
 	}
 
+	// A failing response may say why: a DAV:error element holding a condition,
+	// a responsedescription, or both, in the order of the DTD or the other way
+	// round (exhaustive): code x shape {status only, status first / last next
+	// to 200 propstats} x description {none, after, before the error element} x
+	// position {only, first, last among successful members}. Where the call
+	// returns an error, it is about that response: its code and its condition.
+	condCodes := []int{102, 302, 403, 404, 409, 412, 423, 500, 507}
+	for mi := range methods {
+		m := &methods[mi]
+		if !m.multistatus() {
+			continue
+		}
+		kind := ""
+		if len(m.Kinds) > 0 {
+			kind = m.Kinds[0]
+		}
+		full := func() []pv {
+			need, opt := m.propsFor(kind)
+			var ps []pv
+			for _, id := range append(append([]string(nil), need...), opt...) {
+				ps = append(ps, pv{id, 200})
+			}
+			return ps
+		}
+		i := 0
+		for _, code := range condCodes {
+			for shape := 0; shape < 3; shape++ {
+				for _, desc := range []string{"", "after", "before"} {
+					bad := res{Kind: kind, Status: code, Cond: true, CondDesc: desc}
+					if shape > 0 {
+						bad.Props, bad.Both, bad.StatusLast = full(), true, shape == 2
+					}
+					lists := [][]res{{bad}}
+					if m.Kind != "ms1" {
+						ok := res{Kind: kind, Props: full()}
+						lists = append(lists, []res{bad, ok, ok}, []res{ok, ok, bad})
+					}
+					for _, rs := range lists {
+						g.placementCase(m, rs, i)
+						i++
+					}
+				}
+			}
+		}
+	}
+
+	// One status for several resources (exhaustive): a status-type response
+	// with two or three hrefs, codes x position. Each of the resources is
+	// reported with that status: for sync-collection every href of a 404
+	// response is a deletion; a failing status is an error, never data.
+	for mi := range methods {
+		m := &methods[mi]
+		if m.Kind != "msl" && m.Kind != "sync" {
+			continue
+		}
+		kind := m.Kinds[0]
+		need, opt := m.propsFor(kind)
+		ok := res{Kind: kind}
+		for _, id := range append(append([]string(nil), need...), opt...) {
+			ok.Props = append(ok.Props, pv{id, 200})
+		}
+		i := 0
+		for _, code := range placementCodes {
+			for extra := 1; extra <= 2; extra++ {
+				multi := res{Kind: kind, Status: code, MoreHrefs: extra}
+				for _, rs := range [][]res{{multi}, {multi, ok, ok}, {ok, ok, multi}} {
+					g.placementCase(m, rs, i)
+					i++
+				}
+			}
+		}
+	}
+
 	// Random per-property placements over a wider code set (thorough mostly).
 	wide := append([]int{201, 207, 100, 301, 304, 400, 401, 409, 423, 424, 503, 599}, placementCodes...)
 	n := g.c.Pick(3000, 150000)
@@ -686,6 +767,36 @@ func (g *gen) truncation() {
 					cs.DKey = fmt.Sprintf("%s|%s|doc%d|%s", m.Name, cs.Class, di, cutContext(full, off))
 					g.c.Observe("truncation", "multistatus prefixes", 1)
 					runCase(g.c, cs)
+					g.readEnds(cs, off, off >= end)
+				}
+			}
+		case m.Kind == "open":
+			// a download that breaks off: the caller learns it while reading
+			full := []byte(strings.Repeat("sixteen bytes..\n", 8))
+			for off := 0; off <= len(full); off++ {
+				for _, end := range []string{"", "eof-with-data", "error"} {
+					idx, mine := g.next()
+					if !mine {
+						continue
+					}
+					cs := g.newCase(m, "truncation", "raw body", 200)
+					cs.Header = [][2]string{{"Content-Type", "application/octet-stream"}}
+					if idx%2 == 0 {
+						cs.Header = append(cs.Header, [2]string{"Content-Length", fmt.Sprint(len(full))})
+					}
+					cs.setBody(full[:off:off])
+					cs.ReadEnd = end
+					cs.Chunk = []int{0, 5}[idx%2]
+					if end == "error" {
+						cs.Exp = Expect{Verdict: "err"}
+						cs.Class = "http 2xx + body, then a read error"
+					} else {
+						cs.Exp = Expect{Verdict: "ok", Data: &Out{BodyLen: off, BodySum: bodySum(full[:off])}}
+						cs.Class = "http 2xx"
+					}
+					cs.DKey = fmt.Sprintf("%s|%s|end=%s|%d", m.Name, cs.Class, end, off*8/(len(full)+1))
+					g.c.Observe("truncation", "raw body prefixes", 1)
+					runCase(g.c, cs)
 				}
 			}
 		case m.Kind == "getobj":
@@ -716,9 +827,35 @@ func (g *gen) truncation() {
 					cs.DKey = fmt.Sprintf("%s|%s|obj%d|%s", m.Name, cs.Class, di, cutContext(full, off))
 					g.c.Observe("truncation", "object prefixes", 1)
 					runCase(g.c, cs)
+					g.readEnds(cs, off, off >= end)
 				}
 			}
 		}
+	}
+}
+
+// readEnds repeats a truncation case (every fourth offset in the quick tier)
+// with the two other ways a body can end: the last bytes delivered together
+// with io.EOF (same expectation), and a read error where the prefix ends (an
+// error while the document is incomplete; open once it is complete: the
+// reader may never ask for more).
+func (g *gen) readEnds(base *Case, off int, complete bool) {
+	if !g.c.Thorough() && off%4 != 0 {
+		return
+	}
+	for _, end := range []string{"eof-with-data", "error"} {
+		cs := *base
+		cs.ReadEnd = end
+		cs.DKey = base.DKey + "|end=" + end
+		if end == "error" {
+			cs.Kind += ", then a read error"
+			cs.Class += ", then a read error"
+			if complete {
+				cs.Exp = Expect{Verdict: "any"}
+			}
+		}
+		g.c.Observe("truncation", "prefixes ending with "+end, 1)
+		runCase(g.c, &cs)
 	}
 }
 
@@ -1372,6 +1509,138 @@ func (g *gen) errorBodies() {
 						}
 					}
 				}
+			}
+		}
+	}
+}
+
+// --- error pages -------------------------------------------------------------------------------------
+
+// What servers and the proxies in front of them really send with a failing
+// status: an HTML page (or a JSON problem document), not necessarily in UTF-8.
+// Markup template x text class x tag-name case x Content-Type x every prefix
+// of the page (a cut page ends right behind any of its tags). The body is
+// opaque to the property: an error with the status, no data, no panic.
+
+var pageTemplates = []struct{ name, text string }{
+	{"minimal", "<html><head><title>\x01</title></head><body><h1>\x01</h1></body></html>"},
+	{"proxy", "<html>\r\n<head><title>502 \x01</title></head>\r\n<body>\r\n<center><h1>502 \x01</h1></center>\r\n<hr><center>nginx</center>\r\n</body>\r\n</html>\r\n"},
+	{"doctype", "<!DOCTYPE HTML PUBLIC \"-//IETF//DTD HTML 2.0//EN\">\n<html lang=\"en\"><head>\n<meta http-equiv=\"Content-Type\" content=\"text/html; charset=iso-8859-1\">\n" +
+		"<title lang=\"en\">\x01</title>\n</head><body>\n<h1>\x01</h1>\n<p>\x01<br />\n</p>\n<hr>\n<address>Apache Server at dav.example Port 80</address>\n</body></html>\n"},
+	{"title-only", "<title>\x01</title>"},
+	{"text-then-title", "\x01 <title>\x01</title> \x01"},
+	{"misnested", "</title>\x01<title>\x01<title></title></title><body>"},
+	{"unclosed", "<html><head><title>\x01"},
+	{"json", "{\"type\":\"about:blank\",\"title\":\"\x01\",\"status\":502,\"detail\":\"<title>\x01</title>\"}"},
+}
+
+var pageTexts = []struct{ name, class, text string }{
+	{"ascii", "ASCII text", "Bad Gateway"},
+	{"latin1", "ISO-8859-1 text", "Zugriff verweigert f\xfcr \xe4\xf6\xfc\xdf \xc9\xc8\xc0\xd1o"},
+	{"utf8", "UTF-8 text", "Acc\u00e8s refus\u00e9 \u2014 \u7981\u6b62 \U0001F600"},
+	// runes whose upper or lower case has another length in UTF-8
+	{"casemap", "text whose case mappings change length", "\u023a\u023e\u023a\u023e \u0130\u212a \u017f\u0131\u0250\u023f \u1e9e \u023a\u023e"},
+	{"control", "control characters", "a\x00b\x1b[31mc\x7f\x08"},
+}
+
+// tagCase rewrites the tag names of a page: 0 as written, 1 upper case,
+// 2 alternating.
+func tagCase(page string, mode int) string {
+	if mode == 0 {
+		return page
+	}
+	b := []byte(page)
+	in := false
+	k := 0
+	for i, ch := range b {
+		switch {
+		case ch == '<':
+			in, k = true, 0
+		case in && (ch == '/' || ch == '!') && b[i-1] == '<':
+		case in && (ch >= 'a' && ch <= 'z' || ch >= 'A' && ch <= 'Z' || ch >= '0' && ch <= '9'):
+			if ch >= 'a' && ch <= 'z' && (mode == 1 || k%2 == 0) {
+				b[i] = ch - 'a' + 'A'
+			}
+			k++
+		default:
+			in = false
+		}
+	}
+	return string(b)
+}
+
+var pageTypes = []string{"text/html", "text/html; charset=iso-8859-1", "TEXT/HTML; charset=UTF-8", "application/xhtml+xml", "text/plain", ""}
+var pageTypesJSON = []string{"application/json", "application/problem+json", "text/json", "text/html"}
+
+func (g *gen) errorPages(create bool) {
+	statuses := []int{302, 404, 500, 502, 503}
+	var ms []*minfo
+	for mi := range methods {
+		if (methods[mi].Kind == "create") == create {
+			ms = append(ms, &methods[mi])
+		}
+	}
+	one := func(m *minfo, pi int, tmpl, text, class string, tc int, page []byte, off int, ct string, status int) {
+		cs := g.newCase(m, "errpages", "error page", status)
+		if ct != "" {
+			cs.Header = [][2]string{{"Content-Type", ct}}
+		}
+		if m.Kind == "options" {
+			cs.Header = append(cs.Header, [2]string{"DAV", "1, addressbook"})
+		}
+		cs.setBody(page[:off:off])
+		cs.Chunk = []int{0, 0, 5}[pi%3]
+		if pi%4 == 3 {
+			cs.Via = "basic-auth"
+		}
+		cs.Exp = Expect{Verdict: "err", HTTPCode: status, NoData: true}
+		cs.Class = "http " + failClass(status)
+		cs.Family = "error page, " + class
+		cut := "whole"
+		if off < len(page) {
+			cut = cutContext(page, off)
+		}
+		cs.DKey = fmt.Sprintf("%s|http %s|errpage %s|%s|tags=%d|ct=%s|%s", m.Name, failClass(status), tmpl, text, tc, ct, cut)
+		g.c.Observe("error_pages", fmt.Sprintf("%s, %s, %s", tmpl, class, map[bool]string{true: "whole", false: "cut"}[off == len(page)]), 1)
+		runCase(g.c, cs)
+	}
+	pi := 0
+	for _, tp := range pageTemplates {
+		types := pageTypes
+		if tp.name == "json" {
+			types = pageTypesJSON
+		}
+		for _, tx := range pageTexts {
+			for tc := 0; tc < 3; tc++ {
+				if tp.name == "json" && tc > 0 {
+					continue
+				}
+				// (tag names only: the text is put in after the case change)
+				page := []byte(strings.ReplaceAll(tagCase(tp.text, tc), "\x01", tx.text))
+				// the whole page: every method x every Content-Type
+				for mi, m := range ms {
+					for ti, ct := range types {
+						_, mine := g.next()
+						if !mine {
+							continue
+						}
+						one(m, pi+mi+ti, tp.name, tx.name, tx.class, tc, page, len(page), ct, statuses[(pi+mi+ti)%len(statuses)])
+					}
+				}
+				// every proper prefix: quick with two methods in turn, thorough with all
+				for off := 0; off < len(page); off++ {
+					for mi, m := range ms {
+						if !g.c.Thorough() && (!create && mi != (pi+off)%len(ms) && mi != (pi+off+11)%len(ms) || create && (pi+off)%4 != 0) {
+							continue
+						}
+						_, mine := g.next()
+						if !mine {
+							continue
+						}
+						one(m, pi+off+mi, tp.name, tx.name, tx.class, tc, page, off, types[(off+mi)%2], statuses[(pi+off)%len(statuses)])
+					}
+				}
+				pi++
 			}
 		}
 	}
